@@ -42,6 +42,38 @@ Section P.
       + repeat split; auto.
       + rewrite <- app_assoc. cbn. repeat split; auto; lia.
   Qed.
+
+  (* the same for a target whose encoding cannot represent every character: a row the encoding refuses is a rejected
+     call like any other - nothing of it is emitted *)
+  Lemma write_row_enc_effect enc (c : cid CS) (w : wstate CS) row w' oe evs :
+    write_row_enc enc c w row = (w', oe, evs) ->
+    match oe with
+    | None => w_rows w' = w_rows w ++ [row] /\ l_line (w_loc w') = S (l_line (w_loc w)) /\ forallb (forallb enc) row = true
+    | Some _ => w_rows w' = w_rows w /\ l_line (w_loc w') = l_line (w_loc w)
+    end.
+  Proof.
+    unfold write_row_enc. destruct (write_row c w row) as [[w1 e1] evs1] eqn:W.
+    pose proof (write_row_effect _ _ _ _ _ _ W) as Eff.
+    destruct e1 as [e|].
+    - intros H. injection H as <- <- <-. exact Eff.
+    - destruct (forallb (forallb enc) row) eqn:E; intros H; injection H as <- <- <-; cbn; destruct Eff; auto.
+  Qed.
+  Lemma write_all_enc_emits enc (c : cid CS) : forall rows w wf es,
+    write_all_enc enc c w rows = (wf, es) ->
+    length es = length rows /\
+    w_rows wf = w_rows w ++ accepted_of rows es /\
+    l_line (w_loc wf) = l_line (w_loc w) + length (accepted_of rows es) /\
+    Forall (fun r => forallb (forallb enc) r = true) (accepted_of rows es).
+  Proof.
+    induction rows as [|row rest IH]; intros w wf es H.
+    - cbn in H. injection H as <- <-. cbn. rewrite app_nil_r. auto.
+    - cbn [write_all_enc] in H. destruct (write_row_enc enc c w row) as [[w' oe] evs] eqn:W.
+      destruct (write_all_enc enc c w' rest) as [wf' es'] eqn:R. injection H as <- <-.
+      destruct (IH _ _ _ R) as [A [B [C D]]]. pose proof (write_row_enc_effect _ _ _ _ _ _ _ W) as Eff.
+      destruct oe as [e|]; cbn [accepted_of length].
+      + destruct Eff as [E1 E2]. rewrite B, C, E1, E2. repeat split; auto.
+      + destruct Eff as [E1 [E2 E3]]. rewrite B, C, E1, E2. rewrite <- app_assoc. cbn. repeat split; auto; lia.
+  Qed.
 End P.
 
 (* fixed-width output: every emitted item has exactly the width of its field when the value fits *)
